@@ -340,7 +340,7 @@ class Report:
         h = hashlib.sha1(blob.encode()).hexdigest()[:12]
         path = REPLAYS / self.pid / f"{h}.json"
         replay = dict(replay)
-        replay.update({"property": self.pid, "what": what,
+        replay.update({"property": self.pid, "what": what, "seed": seed(), "tier": tier(),
                        "replay_cmd": f"./check {self.pid} --replay {path}"})
         path.write_text(json.dumps(replay, indent=1, default=str))
         self.violations.append({"what": what, "replay": str(path), "no_input": no_input})
